@@ -113,10 +113,13 @@ def install(world):
     def b_enumerate(it, node, x, start=0):
         sp = world.iter_spec(x, it)
         from .world import IterSpec
-        return IterSpec(sp.length, lambda k: (
+        out = IterSpec(sp.length, lambda k: (
             (start + k) if isinstance(k, int) and not S.is_sym(start)
             else SInt(_ival(start) + (k if z3.is_expr(k) else z3.IntVal(k))),
             sp.item(k)), source=sp.source)
+        if hasattr(sp, 'consume'):
+            out.consume = sp.consume
+        return out
     reg('enumerate', b_enumerate, True)
 
     def b_zip(it, node, *xs):
@@ -137,6 +140,11 @@ def install(world):
     def b_tuple(it, node, x=()):
         if isinstance(x, MList):
             x = x.seq
+        if isinstance(x, S.SIter):
+            rest = x.remaining()
+            x.pos = x.seq.length
+            return SSeq(rest.length, rest.arr, rest.elem, rest.off,
+                        kind='tuple')
         if isinstance(x, SSeq):
             return SSeq(x.length, x.arr, x.elem, x.off, x.step, kind='tuple')
         if isinstance(x, (tuple, list)):
@@ -170,6 +178,15 @@ def install(world):
     def b_dict(it, node, x=None, **kw):
         if x is None:
             return dict(kw)
+        if isinstance(x, (tuple, list)) and all(
+                isinstance(p, tuple) and len(p) == 2 for p in x):
+            d = {}
+            for k, v in x:
+                if S.is_sym(k):
+                    raise Unsupported('dict() with symbolic key')
+                d[k] = v
+            d.update(kw)
+            return d
         if isinstance(x, dict):
             d = dict(x)
             d.update(kw)
@@ -265,6 +282,13 @@ def install(world):
     reg('hasattr', b_hasattr)
 
     def b_iter(it, node, x):
+        if isinstance(x, MList):
+            x = x.seq
+        if isinstance(x, SSeq) and x.kind != 'iter':
+            return S.SIter(SSeq(x.length, x.arr, x.elem, x.off, x.step,
+                                kind='iter'))
+        if isinstance(x, SSeq):
+            return S.SIter(x)
         return x
     reg('iter', b_iter, True)
 
@@ -325,16 +349,76 @@ def install(world):
                 raise Unsupported('islice step')
         if lo is None:
             lo = 0
+        if isinstance(x, S.SIter):
+            # islice pulls min(hi, remaining) elements from the iterator
+            if lo != 0:
+                raise Unsupported('islice with start on an iterator')
+            rest = x.remaining()
+            taken = it.slice(rest, 0, hi, None, node)
+            x.pos = z3.simplify(x.pos + taken.length)
+            taken.kind = 'iter'
+            return taken
         return it.slice(_as_seq(world, it, x), lo, hi, None, node)
     world.lib[('itertools', 'islice')] = Model('itertools.islice', it_islice,
                                                True)
 
+    def b_map(it, node, fn, *xs):
+        seqs = [_as_seq(world, it, x) for x in xs]
+        if all(isinstance(q, (tuple, list)) for q in seqs):
+            n = min(len(q) for q in seqs)
+            return tuple(it.call(fn, [q[i] for q in seqs], {}, node)
+                         for i in range(n))
+        if len(seqs) == 1 and isinstance(seqs[0], SSeq):
+            world.trusted_used.add('map (T-lazy): element-wise image')
+            q = seqs[0]
+            k = z3.Int(S.fresh_name('k'))
+            was = it.spec
+            it.spec = True
+            try:
+                body = it.call(fn, [q.elem.wrap(q.at(k))], {}, node)
+            finally:
+                it.spec = was
+            t = S.type_of(body)
+            if t is None or isinstance(t, TSeq):
+                raise Unsupported('map body %r' % (body,))
+            return SSeq(q.length, z3.Lambda([k], t.unwrap(body)), t,
+                        kind='iter')
+        raise Unsupported('map over %r' % (xs,))
+    reg('map', b_map, True)
+
     def it_chain(it, node, *xs):
+        from .world import IterSpec
         cur = None
+        last_iter = None
+        prefix = None
         for x in xs:
-            q = _as_seq(world, it, x)
+            if isinstance(x, S.SIter):
+                if last_iter is not None:
+                    raise Unsupported('chain of two one-shot iterators')
+                last_iter = x
+                prefix = cur
+                q = x.remaining()
+            else:
+                if last_iter is not None:
+                    raise Unsupported('chain: sequence after an iterator')
+                q = _as_seq(world, it, x)
             cur = q if cur is None else it.binop('Add', cur, q, node)
-        return cur if cur is not None else ()
+        if cur is None:
+            return ()
+        if last_iter is None:
+            return cur
+        if isinstance(cur, (tuple, list)):
+            cur = S.seq_from_items(list(cur), last_iter.seq.elem)
+        plen = z3.IntVal(0) if prefix is None else (
+            prefix.length if isinstance(prefix, SSeq)
+            else z3.IntVal(len(prefix)))
+        sp = IterSpec(cur.length, lambda k: cur.get(k), source=last_iter)
+
+        def consume(n, li=last_iter, plen=plen):
+            n = n if z3.is_expr(n) else z3.IntVal(n)
+            li.pos = z3.simplify(li.pos + z3.If(n - plen < 0, 0, n - plen))
+        sp.consume = consume
+        return sp
     world.lib[('itertools', 'chain')] = Model('itertools.chain', it_chain,
                                               True)
 
@@ -356,6 +440,8 @@ def install(world):
 def _as_seq(world, it, x):
     if isinstance(x, MList):
         return x.seq
+    if isinstance(x, S.SIter):
+        raise Unsupported('one-shot iterator used as a sequence')
     if isinstance(x, (SSeq, tuple, list)):
         return x
     sp = world.iter_spec(x, it)
@@ -465,6 +551,12 @@ def str_method(world, o, name, args, kw, it, node):
     if isinstance(o, str) and not any(_deep_sym(a) for a in args):
         if name in ('format',):
             raise Unsupported('str.format')
+    if name == 'format':
+        # message formatting: an opaque string of template and arguments
+        world.trusted_used.add('str.format (uninterpreted)')
+        return SStr(z3.String(S.fresh_name('formatted')))
+    if False:
+        pass
         try:
             return getattr(o, name)(*args, **kw)
         except (ValueError, IndexError, TypeError) as e:
